@@ -478,6 +478,10 @@ func c04Decoded(r *Run) {
 		c04Failover(r)
 		return
 	}
+	if t.Bool(1, 12, "c04.rotated") {
+		c04Rotated(r)
+		return
+	}
 	key := pickCheapKey(t)
 	algItem, algKind := c04AlgValue(t, key.Alg)
 	if algKind == "wrongtype" {
@@ -653,4 +657,91 @@ func c04Failover(r *Run) {
 		}
 	}
 	r.Outcome("failover-signed")
+}
+
+// c04Rotated: one long-lived signer / verifier OBJECT whose key is rotated
+// behind it (a KMS handle: the same Go value answers Algorithm() with the new
+// key's algorithm afterwards).  Every use is judged by what the object says
+// at that moment.
+func c04Rotated(r *Run) {
+	t := r.T
+	k1 := pickCheapKey(t)
+	k2 := otherKey(t, k1, false)
+	if k2 == nil || k2.Alg == k1.Alg {
+		k2 = poolEd[0]
+		if k1.Alg == k2.Alg {
+			k2 = poolEC[0]
+		}
+	}
+	if _, isRSA := k2.Priv.Public().(interface{ Size() int }); isRSA {
+		k2 = poolEC[3]
+		if k2.Alg == k1.Alg {
+			k2 = poolEC[0]
+		}
+	}
+	ent := NewEntropy(uint64(t.U32("entropy.seed")))
+	payload := genPayload(t, false)
+	pinned := func(alg int64) cose.Headers {
+		return cose.Headers{Protected: cose.ProtectedHeader{cose.HeaderLabelAlgorithm: cose.Algorithm(alg)}}
+	}
+	spy := &SpySigner{Inner: r.signerFor(k1, false), Alg: cose.Algorithm(k1.Alg)}
+	spyV := &SpyVerifier{Inner: r.verifierFor(k1, false), Alg: cose.Algorithm(k1.Alg)}
+	m1 := &cose.Sign1Message{Headers: pinned(k1.Alg), Payload: payload}
+	var e1, ev1 error
+	r.Lib(func() { e1 = m1.Sign(ent, nil, spy) })
+	if e1 != nil {
+		r.Outcome("rotated/first-use-refused")
+		return
+	}
+	r.Lib(func() { ev1 = m1.Verify(nil, spyV) })
+	r.Op("SIGN", "long-lived signer and verifier objects used with %s (alg %d): %s / %s", k1.Name, k1.Alg, errTag(e1), errTag(ev1))
+	// rotation: same objects, new key, new algorithm
+	spy.Inner, spy.Alg = r.signerFor(k2, false), cose.Algorithm(k2.Alg)
+	spyV.Inner, spyV.Alg = r.verifierFor(k2, false), cose.Algorithm(k2.Alg)
+	r.Fired("seam.key-rotated-behind-the-object")
+	r.Op("ROTATE", "the same objects now stand for %s (alg %d)", k2.Name, k2.Alg)
+	r.Outcome("rotated")
+	calls, vcalls := len(spy.Calls), len(spyV.Calls)
+	// a message pinned to the OLD algorithm must be refused, key unused
+	m2 := &cose.Sign1Message{Headers: pinned(k1.Alg), Payload: payload}
+	var e2 error
+	r.Lib(func() { e2 = m2.Sign(ent, nil, spy) })
+	r.Check()
+	if e2 == nil || len(spy.Calls) != calls {
+		r.Fail("rotated-signer-judged-by-its-earlier-algorithm", "a signer object that now answers Algorithm() = %d was used before with %d; Sign of a message pinned to alg %d returned %v and called the signer %d time(s)", k2.Alg, k1.Alg, k1.Alg, e2, len(spy.Calls)-calls)
+		return
+	}
+	// a message that leaves the algorithm to the library gets the NEW one
+	m3 := &cose.Sign1Message{Payload: payload}
+	var e3 error
+	var wire []byte
+	r.Lib(func() { e3 = m3.Sign(ent, nil, spy) })
+	if e3 == nil {
+		r.Lib(func() { wire, e3 = m3.MarshalCBOR() })
+	}
+	r.Check()
+	if e3 == nil {
+		if pm, perr := refcose.ParseMsg(refcose.KSign1Tagged, wire); perr == nil {
+			var a *refcbor.Item
+			if pm.ProtMap != nil {
+				a = refcose.Lookup(pm.ProtMap, refcose.LAlg)
+			}
+			if a != nil && a.IsInt() && mustInt(a) == k2.Alg {
+				goto verify
+			}
+			r.Fail("rotated-signer-judged-by-its-earlier-algorithm", "a message that leaves alg to the library, signed by an object that now answers Algorithm() = %d (earlier %d), carries alg %s", k2.Alg, k1.Alg, diagOrAbsent(a))
+			return
+		}
+	}
+verify:
+	// verification: the old message under the rotated verifier object is a
+	// mismatch, the verifier's key is not consulted
+	var e4 error
+	r.Lib(func() { e4 = m1.Verify(nil, spyV) })
+	r.Check()
+	if e4 == nil || len(spyV.Calls) != vcalls {
+		r.Fail("rotated-verifier-judged-by-its-earlier-algorithm", "a verifier object that now answers Algorithm() = %d was used before with %d; Verify of a message with alg %d returned %v and consulted the verifier %d time(s)", k2.Alg, k1.Alg, k1.Alg, e4, len(spyV.Calls)-vcalls)
+		return
+	}
+	r.Probe("rotated-objects-judged-by-current-algorithm")
 }
